@@ -281,14 +281,14 @@ def load_findings(pid):
 # main flow
 # ----------------------------------------------------------------------------------------
 def write_replay(pid, kind, detail, case):
-    os.makedirs(os.path.join(env.VERIF, 'replays'), exist_ok=True)
+    os.makedirs(os.path.join(env.OUT, 'replays'), exist_ok=True)
     blob = json.dumps(dict(property=pid, kind=kind, detail=detail, case=case), indent=1,
                       sort_keys=True, default=str)
     name = '%s-%s.json' % (pid, _h(kind + json.dumps(case, sort_keys=True, default=str)))
-    path = os.path.join(env.VERIF, 'replays', name)
+    path = os.path.join(env.OUT, 'replays', name)
     with open(path, 'w') as fh:
         fh.write(blob + '\n')
-    return os.path.relpath(path, env.VERIF)
+    return os.path.relpath(path, env.VERIF) if env.OUT == env.VERIF else path
 
 
 def replay(pid, path):
@@ -425,8 +425,8 @@ def run(pid, tier):
     evidence = dict(property_id=pid, tier=tier, seed=seed, level=LEVEL, coverage=coverage,
                     assumptions=list(getattr(prop, 'ASSUMPTIONS', [])),
                     wall_s=round(time.time() - t0, 2), violations=len(violations))
-    os.makedirs(os.path.join(env.VERIF, 'evidence'), exist_ok=True)
-    with open(os.path.join(env.VERIF, 'evidence', pid + '.json'), 'w') as fh:
+    os.makedirs(os.path.join(env.OUT, 'evidence'), exist_ok=True)
+    with open(os.path.join(env.OUT, 'evidence', pid + '.json'), 'w') as fh:
         json.dump(evidence, fh, indent=1, sort_keys=True, default=str)
         fh.write('\n')
 
